@@ -188,6 +188,7 @@ def table(extends, expr, defs='', name='Gen', timeout=600, wd=None, heap='4g'):
     """Evaluate the TLA+ set-of-records expression `expr` (in a module that
     EXTENDS `extends`) with TLC and return it as a list of dicts.  The values
     come from TLC, never from a Python re-implementation of the spec."""
+    own = wd is None
     wd = wd or workdir()
     mod = 'Gen_' + name
     out = os.path.join(wd, mod + '.ndjson')
@@ -202,4 +203,9 @@ def table(extends, expr, defs='', name='Gen', timeout=600, wd=None, heap='4g'):
         raise TlcError('oracle table %s failed: %s\n%s' % (name, r.errors[:2], r.out[-2500:]))
     rows = ndjson(out)
     r.rows = rows
+    if own:
+        # (also when called in a forked worker, where atexit handlers do not run)
+        shutil.rmtree(wd, ignore_errors=True)
+        if wd in _workdirs:
+            _workdirs.remove(wd)
     return r
